@@ -75,7 +75,7 @@ func (p *PQ) Open() error {
 	if err := p.D.Lock(true, false); err != nil {
 		return err
 	}
-	f, err := txfile.VerifOpenWith(p.D, p.fileOptions())
+	f, err := p.E.OpenFile(p.D, p.fileOptions())
 	if err != nil {
 		p.D.Unlock()
 		return err
@@ -83,7 +83,7 @@ func (p *PQ) Open() error {
 	p.F = f
 	p.E.Yield("opened")
 	if err := p.openQueue(); err != nil {
-		p.F.Close()
+		p.E.CloseFile(p.F)
 		p.F = nil
 		return err
 	}
@@ -429,7 +429,7 @@ func (p *PQ) Reopen() {
 		// which events made it is only bounded: anything completed may or may not have been flushed earlier
 		flushed = -1
 	}
-	if cerr := p.F.Close(); cerr != nil {
+	if cerr := p.E.CloseFile(p.F); cerr != nil {
 		p.fail("close-error", "File.Close failed: %v", cerr)
 		return
 	}
@@ -542,7 +542,7 @@ func (p *PQ) Close() {
 		p.Q.Close()
 	}
 	if p.F != nil {
-		p.F.Close()
+		p.E.CloseFile(p.F)
 	}
 	p.F, p.Q, p.W, p.R = nil, nil, nil, nil
 }
